@@ -1082,3 +1082,21 @@ LEVEL_NOTE = ("Trusted: Coq kernel; extraction + OCaml glue; harness (node ident
               "VisitSpec.v / ref_visit (no second call after SKIP, as json-c's own expected test output shows).  The theorems are about the "
               "Gallina model; the C code is tied to it by the checked correspondence (exhaustive on small trees, sampled beyond).  Callbacks "
               "that modify the tree during the visit are outside the statement.")
+
+
+# ---- source -> Gallina translator for the header constants this model uses (tr/lib_consts.py; LibImplCheck.v)
+LIB_TRANSLATOR = {}
+
+
+def coq_extra():
+    import sys as _sys, os as _os
+    import fw as _fw
+    _sys.path.insert(0, _os.path.join(_fw.VERIF, "tr"))
+    import lib_consts
+    files, info = lib_consts.coq_extra_for(_fw)
+    LIB_TRANSLATOR.update(info)
+    return files
+
+
+def extra_coverage():
+    return dict(lib_translator=dict(LIB_TRANSLATOR))
